@@ -36,7 +36,7 @@ class Sched:
         t = self.current
         if t is None or threading.current_thread().name != "w%d" % t:
             return
-        if what in ("send", "recv"):
+        if what in ("send", "recv", "connect"):
             self.events.append({"th": t, "op": what})
         self.ctl.release()
         self.go[t].acquire()
@@ -110,6 +110,8 @@ class SLock:
         self.sched.deadline.pop(me, None)
         self.owner = me
         self.depth += 1
+        if self.depth == 1:
+            self.sched.events.append({"th": me, "op": "lock"})       # the outermost acquire succeeded (refinement trace)
         return True
 
     def release(self):
@@ -117,6 +119,7 @@ class SLock:
             return
         self.depth -= 1
         if self.depth == 0:
+            self.sched.events.append({"th": self.owner, "op": "unlock"})
             self.owner = None
 
     __enter__ = acquire
@@ -216,7 +219,9 @@ def run_schedule(tid, nthreads, k, picker, rng, broken_lock=False, client_name="
                                 res["kind"] = "connfail"        # the scripted connection failure: excepted by the statement
                                 line.connect_ok = True
                         calls.append(res)
-                        sched.events.append({"th": t, "op": "done"})
+                        sched.events.append({"th": t, "op": "done",
+                                             "res": "own" if (res["kind"] == "reply" and res["gotv"] == want) else
+                                                    ("other" if res["kind"] == "reply" else "error")})
                 except Abort:
                     pass
                 finally:
@@ -234,7 +239,9 @@ def run_schedule(tid, nthreads, k, picker, rng, broken_lock=False, client_name="
     finally:
         TX.RLock = saved
     return {"id": tid, "nthreads": nthreads, "k": k, "ev": sched.events, "calls": calls,
-            "frames": [list(f) for f in frames], "connfail": 1 if connfail_first else 0}
+            "frames": [list(f) for f in frames], "connfail": 1 if connfail_first else 0,
+            # executions the implementation-shaped model describes: the TCP client with a working connect and the real lock
+            "refine": 1 if (client_name == "tcp" and not connfail_first and not broken_lock) else 0}
 
 
 def pickers(nthreads, rng, tier):
@@ -359,6 +366,41 @@ def run(prop, tier):
     rep.notes["tlc_generated_orders_replayed"] = nord
     verdicts, st = validate_traces("ThreadsTrace", "ThreadsTrace.cfg", traces)
     rep.add_tv(st, len(traces), sum(len(t["ev"]) for t in traces))
+    # refinement: is each recorded execution (lock / connect / send / unlock / done events) a behaviour of ThreadsImpl?
+    rtr = [{"id": t["id"], "nthreads": t["nthreads"], "k": t["k"],
+            "ev": [e for e in t["ev"] if e["op"] in ("lock", "unlock", "connect", "send", "done")]} for t in traces if t.get("refine")]
+    rverd, rst = validate_traces("ThreadsImplTrace", "ThreadsImplTrace.cfg", rtr)
+    rep.add_tv(rst, len(rtr), sum(len(t["ev"]) for t in rtr))
+    rep.notes["refinement_traces"] = {"validated_against_ThreadsImpl": len(rtr), "accepted": sum(1 for v in rverd.values() if v["status"] == "OK")}
+    # An execution the model does not allow is not by itself a violation of C15 (a correct client may be structured differently:
+    # one lock region per call, a separate connect lock, ...).  It is a reason to look harder: the schedules are multiplied, and
+    # only an execution in which the statement itself fails (clauses of ThreadsTrace) is reported.
+    okr = next((x for x in rtr if rverd[x["id"]]["status"] == "OK" and any(e["op"] == "lock" for e in x["ev"])), None)
+    if okr is not None:
+        # the refinement check has teeth: the same execution with its first lock acquisition removed is not a behaviour of the model
+        bad = dict(okr, id="st_nolock", ev=[e for j, e in enumerate(okr["ev"]) if j != next(n for n, x in enumerate(okr["ev"]) if x["op"] == "lock")])
+        bvd, _ = validate_traces("ThreadsImplTrace", "ThreadsImplTrace.cfg", [bad], shards=1)
+        if bvd["st_nolock"]["status"] != "FAIL":
+            raise MachineryError("refinement self-test: an execution without its lock acquisition was accepted")
+        rep.notes["refinement_traces"]["self_test"] = bvd["st_nolock"]["clauses"]
+    outside = [tid_ for tid_, v in rverd.items() if v["status"] != "OK"]
+    rep.notes["refinement_traces"]["outside_the_model"] = len(outside)
+    extra = []
+    if outside and not any(v["status"] != "OK" for v in verdicts.values()):
+        ex0 = next(x for x in rtr if x["id"] == outside[0])
+        print("MODEL-DIVERGENCE C15: %d of %d recorded executions are not behaviours of spec/ThreadsImpl.tla (first: %s at event %d: %s); "
+              "searching more schedules for an execution in which C15 itself fails"
+              % (len(outside), len(rtr), outside[0], rverd[outside[0]]["step"], ex0["ev"][rverd[outside[0]]["step"] - 1]))
+        for nt, kk in [(3, 2), (4, 2), (3, 3)]:
+            for j, p in enumerate(pickers(nt, rng, "thorough")[::2]):
+                extra.append(run_schedule("x%d" % k, nt, kk, p, rng, units_differ=(j % 2 == 1), slow=(j % 5 == 4),
+                                          drop_first_of=(1 + j % nt) if j % 3 == 2 else 0))
+                k += 1
+        xverd, xst = validate_traces("ThreadsTrace", "ThreadsTrace.cfg", extra)
+        rep.add_tv(xst, len(extra), sum(len(t["ev"]) for t in extra))
+        rep.notes["refinement_traces"]["extra_schedules_searched"] = len(extra)
+        traces += extra
+        verdicts.update(xverd)
     for t in traces:
         v = verdicts[t["id"]]
         if v["status"] == "OK":
